@@ -4,6 +4,12 @@
 ; derived mechanically from the Go types of /repo by the engine (sorts.go).
 ; ---------------------------------------------------------------------------
 
+; trigger marker for index-quantified facts: (trig j) is always true. Index-quantified formulas mention
+; it and use it as their pattern; the engine asserts (trig i) for every index the code uses, and a
+; skolemized goal index carries its own (trig j0), so hypotheses are instantiated where needed.
+(declare-fun trig (Int) Bool)
+(assert (forall ((j Int)) (! (trig j) :pattern ((trig j)))))
+
 ; ---- shape predicates -------------------------------------------------------
 (define-fun is_marked ((v cty.Value)) Bool ((_ is box<cty.marker>) (cty.Value.v v)))
 (define-fun inner_v ((v cty.Value)) Any
@@ -30,32 +36,24 @@
   (fmarks (select (select F.Arr<Int> (Slice.ptr s)) (+ (Slice.off s) i))))
 (define-fun markmap_at ((s Slice) (i Int)) MapC<Any~Unit>
   (select F.MapC<Any~Unit> (select (select F.Arr<Int> (Slice.ptr s)) (+ (Slice.off s) i))))
+(define-fun markmap_rel ((s Slice) (j Int)) MapC<Any~Unit> (select F.MapC<Any~Unit> (select (select F.Arr<Int> (Slice.ptr s)) (+ (Slice.off s) j))))
 (define-fun in_any_markset ((s Slice) (n Int) (k Any)) Bool
-  (exists ((j Int)) (! (and (<= (Slice.off s) j) (< j (+ (Slice.off s) n))
-                         (select (fmarks (select (select F.Arr<Int> (Slice.ptr s)) j)) k))
-     :pattern ((select (select F.Arr<Int> (Slice.ptr s)) j)))))
-; every mark set of the slice prefix is a finite map.
-; Quantification is over absolute array positions so that the trigger contains no arithmetic.
+  (exists ((j Int)) (! (and (trig j) (<= 0 j) (< j n) (select (MapC<Any~Unit>.dom (markmap_rel s j)) k)) :pattern ((trig j)))))
+; every mark set of the slice prefix is a finite map
 (define-fun marksets_ok ((s Slice) (n Int)) Bool
-  (forall ((j Int)) (! (=> (and (<= (Slice.off s) j) (< j (+ (Slice.off s) n)))
-        (MapC<Any~Unit>.ok (select F.MapC<Any~Unit> (select (select F.Arr<Int> (Slice.ptr s)) j))))
-     :pattern ((select (select F.Arr<Int> (Slice.ptr s)) j)))))
+  (forall ((j Int)) (! (=> (and (trig j) (<= 0 j) (< j n)) (MapC<Any~Unit>.ok (markmap_rel s j))) :pattern ((trig j)))))
 (define-fun marksets_empty ((s Slice) (n Int)) Bool
-  (forall ((j Int)) (! (=> (and (<= (Slice.off s) j) (< j (+ (Slice.off s) n)))
-        (= (MapC<Any~Unit>.card (select F.MapC<Any~Unit> (select (select F.Arr<Int> (Slice.ptr s)) j))) 0))
-     :pattern ((select (select F.Arr<Int> (Slice.ptr s)) j)))))
+  (forall ((j Int)) (! (=> (and (trig j) (<= 0 j) (< j n)) (= (MapC<Any~Unit>.card (markmap_rel s j)) 0)) :pattern ((trig j)))))
 
 ; ---- slices of values ([]cty.Value in heap Arr<cty.Value>), absolute positions ------------------
 (define-fun vals_arr ((s Slice)) (Array Int cty.Value) (select F.Arr<cty.Value> (Slice.ptr s)))
+(define-fun vals_rel ((s Slice) (j Int)) cty.Value (select (vals_arr s) (+ (Slice.off s) j)))
 (define-fun vals_wf_marks ((s Slice) (n Int)) Bool
-  (forall ((j Int)) (! (=> (and (<= (Slice.off s) j) (< j (+ (Slice.off s) n))) (wf_marks (select (vals_arr s) j)))
-     :pattern ((select (vals_arr s) j)))))
+  (forall ((j Int)) (! (=> (and (trig j) (<= 0 j) (< j n)) (wf_marks (vals_rel s j))) :pattern ((trig j)))))
 (define-fun vals_unmarked ((s Slice) (n Int)) Bool
-  (forall ((j Int)) (! (=> (and (<= (Slice.off s) j) (< j (+ (Slice.off s) n))) (not (is_marked (select (vals_arr s) j))))
-     :pattern ((select (vals_arr s) j)))))
+  (forall ((j Int)) (! (=> (and (trig j) (<= 0 j) (< j n)) (not (is_marked (vals_rel s j)))) :pattern ((trig j)))))
 (define-fun in_any_valmarks ((s Slice) (n Int) (k Any)) Bool
-  (exists ((j Int)) (! (and (<= (Slice.off s) j) (< j (+ (Slice.off s) n)) (select (marks_of (select (vals_arr s) j)) k))
-     :pattern ((select (vals_arr s) j)))))
+  (exists ((j Int)) (! (and (trig j) (<= 0 j) (< j n) (select (marks_of (vals_rel s j)) k)) :pattern ((trig j)))))
 
 ; ---- refinement builder (pre-state through the frozen heap) -------------------------------------
 (define-fun b_wip ((b Int)) Any (cty.RefinementBuilder.wip (select F.cty.RefinementBuilder b)))
@@ -198,3 +196,72 @@
                                                  :pattern ((select (tuple_arr t) j)))))
         (and (is_obj_ty t) (exists ((k String)) (! (and (select (obj_dom t) k) (has_dynF f (obj_aty t k))) :pattern ((select (obj_dom t) k)))))))
   :pattern ((has_dynF (FS f) t)))))
+
+; ---- deep marks (UnmarkDeep / ContainsMarked): uninterpreted views with the facts callers rely on ----
+(declare-fun deep_marked (cty.Value) Bool)
+(declare-fun deep_unmark (cty.Value) cty.Value)
+(declare-fun deep_marks (cty.Value) (Array Any Bool))
+(assert (forall ((v cty.Value)) (! (=> (is_marked v) (deep_marked v)) :pattern ((deep_marked v)))))
+(assert (forall ((v cty.Value)) (! (and (not (deep_marked (deep_unmark v)))
+                                        (= (cty.Value.ty (deep_unmark v)) (cty.Value.ty v))
+                                        (= (is_null (deep_unmark v)) (is_null v))
+                                        (= (is_known (deep_unmark v)) (is_known v))
+                                        (wf_marks (deep_unmark v))
+                                        (=> (not (deep_marked v)) (= (deep_unmark v) v)))
+                                   :pattern ((deep_unmark v)))))
+(assert (forall ((v cty.Value)) (! (= (deep_marked v) (not (= (deep_marks v) empty<Any>))) :pattern ((deep_marks v)))))
+
+; ---- function specifications (package function) ---------------------------------------------------
+(define-fun spec_of ((f function.Function)) function.Spec (select F.function.Spec (function.Function.spec f)))
+(define-fun sp_params ((s function.Spec)) Slice (function.Spec.Params s))
+(define-fun sp_nparams ((s function.Spec)) Int (Slice.len (function.Spec.Params s)))
+(define-fun sp_parr ((s function.Spec)) (Array Int function.Parameter) (select F.Arr<function.Parameter> (Slice.ptr (function.Spec.Params s))))
+(define-fun sp_param ((s function.Spec) (i Int)) function.Parameter (select (sp_parr s) (+ (Slice.off (function.Spec.Params s)) i)))
+(define-fun sp_hasvar ((s function.Spec)) Bool (not (= (function.Spec.VarParam s) 0)))
+(define-fun sp_var ((s function.Spec)) function.Parameter (select F.function.Parameter (function.Spec.VarParam s)))
+(define-fun sp_param_for ((s function.Spec) (i Int)) function.Parameter (ite (< i (sp_nparams s)) (sp_param s i) (sp_var s)))
+(define-fun sp_wf ((s function.Spec)) Bool
+  (and (slice.ok (function.Spec.Params s))
+       (forall ((j Int)) (! (=> (and (<= (Slice.off (function.Spec.Params s)) j) (< j (+ (Slice.off (function.Spec.Params s)) (sp_nparams s))))
+                              (wf_ty (function.Parameter.Type (select (sp_parr s) j))))
+                           :pattern ((select (sp_parr s) j))))
+       (=> (sp_hasvar s) (wf_ty (function.Parameter.Type (sp_var s))))))
+; an argument violates the part of its parameter's declaration that is reported as an argument error
+(define-fun arg_offends ((p function.Parameter) (v cty.Value)) Bool
+  (or (and (is_null v) (not (function.Parameter.AllowNull p)))
+      (and (not (is_dyn_ty (cty.Value.ty v))) (not (conforms (cty.Value.ty v) (function.Parameter.Type p))))))
+; well-formedness facts of a slice of values that the checks below rely on
+(define-fun vals_typed ((s Slice) (n Int)) Bool
+  (forall ((j Int)) (! (=> (and (trig j) (<= 0 j) (< j n)) (and (wf_marks (vals_rel s j)) (wf_ty (cty.Value.ty (vals_rel s j))))) :pattern ((trig j)))))
+; declared (not a macro) so that it can serve as a quantifier pattern; the axiom is its definition
+(declare-fun val_at (Slice Int) cty.Value)
+(assert (forall ((s Slice) (i Int)) (! (= (val_at s i) (select (vals_arr s) (+ (Slice.off s) i))) :pattern ((val_at s i)))))
+; ghost: "this error value was returned by a function's own Type/Impl callback" (uninterpreted)
+(declare-fun from_callback (Any) Bool)
+; element i of a slice of values that may have been allocated by the current activation (h = current heap)
+(declare-fun hval_at ((Array Int (Array Int cty.Value)) Slice Int) cty.Value)
+(assert (forall ((h (Array Int (Array Int cty.Value))) (s Slice) (i Int)) (! (= (hval_at h s i)
+  (select (ite (< (Slice.ptr s) 0) (select h (Slice.ptr s)) (select F.Arr<cty.Value> (Slice.ptr s))) (+ (Slice.off s) i)))
+  :pattern ((hval_at h s i)))))
+; the first n arguments passed every check that returnTypeForValues makes before the Type callback
+(define-fun arg_ok ((p function.Parameter) (v cty.Value)) Bool
+  (and (not (arg_offends p v)) (=> (is_dyn_ty (cty.Value.ty v)) (function.Parameter.AllowDynamicType p))))
+(define-fun args_checked ((sp function.Spec) (args Slice) (n Int)) Bool
+  (forall ((j Int)) (! (=> (and (trig j) (<= 0 j) (< j n)) (arg_ok (sp_param_for sp j) (vals_rel args j))) :pattern ((trig j)))))
+(define-fun arity_ok ((sp function.Spec) (n Int)) Bool
+  (and (>= n (sp_nparams sp)) (=> (not (sp_hasvar sp)) (= n (sp_nparams sp)))))
+; what a function's Impl callback may rely on for argument j (C10): v is the value passed
+(define-fun impl_arg_ok ((p function.Parameter) (v cty.Value)) Bool
+  (and (=> (not (function.Parameter.AllowNull p)) (not (is_null v)))
+       (=> (not (function.Parameter.AllowUnknown p)) (is_known v))
+       (=> (not (function.Parameter.AllowMarked p)) (not (deep_marked v)))
+       (=> (not (function.Parameter.AllowDynamicType p)) (not (is_dyn_ty (cty.Value.ty v))))
+       (or (is_dyn_ty (cty.Value.ty v)) (conforms (cty.Value.ty v) (function.Parameter.Type p)))))
+(define-fun impl_args_ok ((sp function.Spec) (h (Array Int (Array Int cty.Value))) (s Slice)) Bool
+  (and (arity_ok sp (Slice.len s))
+       (forall ((j Int)) (! (=> (and (trig j) (<= 0 j) (< j (Slice.len s))) (impl_arg_ok (sp_param_for sp j) (hval_at h s j))) :pattern ((trig j))))))
+; mark-set slices that may still live in the current heaps
+(define-fun marksets_ok_h ((ha (Array Int (Array Int Int))) (hm (Array Int MapC<Any~Unit>)) (s Slice) (n Int) (wm Int) (hi Int)) Bool
+  (forall ((j Int)) (! (=> (and (trig j) (<= 0 j) (< j n))
+     (let ((m (select (ite (< (Slice.ptr s) 0) (select ha (Slice.ptr s)) (select F.Arr<Int> (Slice.ptr s))) (+ (Slice.off s) j))))
+       (and (>= m wm) (< m hi) (MapC<Any~Unit>.ok (ite (< m 0) (select hm m) (select F.MapC<Any~Unit> m)))))) :pattern ((trig j)))))
